@@ -164,6 +164,10 @@ func needsQuoting(s string) bool {
 		"repeat", "return", "while":
 		return true
 	}
+	if s == "" {
+		// not an identifier at all: `{ = 1}` is a syntax error
+		return true
+	}
 	// [%a_][%w_]*
 	for i, c := range s {
 		if i == 0 {
